@@ -361,4 +361,38 @@ static inline bool apply_model(const Op& o, Canvas& d, const Canvas& s, const Ca
   return calls_exact;
 }
 
+
+// ------------------------------------------------------------------------------------------------
+// whole-canvas format changes (the model is carried ACROSS them: maxv always follows the new width)
+
+// set_channel_width: widening copies the value into every lower slice ("the now-high bits to the
+// lower bits"), narrowing keeps the high bits (rule documented in Image::set_channel_width).
+static inline void model_set_width(Canvas& c, int nw) {
+  if (nw == c.cw) return;
+  Canvas n;
+  n.init(c.w, c.h, c.alpha, nw);
+  for (size_t i = 0; i < c.v.size(); i++) {
+    uint64_t v = c.v[i], r = 0;
+    if (nw > c.cw) {
+      for (int s = 0; s < nw; s += c.cw) r |= v << s;
+    } else {
+      r = v >> (c.cw - nw);
+    }
+    n.v[i] = r & n.maxv;
+  }
+  c = n;
+}
+
+// set_has_alpha: colour channels preserved, a new alpha channel is fully opaque (= channel maximum)
+static inline void model_set_alpha(Canvas& c, bool a) {
+  if (a == c.alpha) return;
+  Canvas n;
+  n.init(c.w, c.h, a, c.cw);
+  for (int64_t i = 0; i < c.w * c.h; i++) {
+    for (int k = 0; k < 3; k++) n.v[(size_t)(i * n.nch + k)] = c.v[(size_t)(i * c.nch + k)];
+    if (a) n.v[(size_t)(i * n.nch + 3)] = n.maxv;
+  }
+  c = n;
+}
+
 }  // namespace c07
